@@ -491,7 +491,11 @@ impl<U> Serialize for ExecutionContext<'_, U> {
     where
         S: Serializer,
     {
-        let mut map = serializer.serialize_map(Some(self.values.len()))?;
+        // The length hint must be exact: serde_json closes the object right
+        // away when it is told that there are no entries.
+        let len = self.values.iter().filter(|value| value.is_some()).count()
+            + usize::from(!self.list_matchers.is_empty());
+        let mut map = serializer.serialize_map(Some(len))?;
         for field in self.scheme().fields() {
             if let Some(Some(value)) = self.values.get(field.index()) {
                 map.serialize_entry(field.name(), value)?;
